@@ -429,6 +429,11 @@ func (c *FuncCtx) isNilTerm(v *Val) string {
 	case strings.HasPrefix(v.Sort, "Opt_"):
 		return app("(_ is none_"+v.Sort+")", v.S)
 	}
+	if strings.HasPrefix(v.Sort, "St_") {
+		// a struct value standing in for the address of an addressable variable
+		// (receiver of a pure method called on a value): never nil
+		return tFalse
+	}
 	limitf("nil comparison on sort %s", v.Sort)
 	return ""
 }
